@@ -570,6 +570,7 @@ class System:
                 it = Interp(self.progs[0], self.models, self.progs[1:])
                 it.enum_discr.update(getattr(sysm, "extra_discr", {}))
                 it.hooks.update(getattr(sysm, "hooks", {}))
+                it.redirects.update(getattr(sysm, "redirects", {}))
                 it.system = sysm
                 it.thread = t
                 ctx.thread = t
@@ -656,6 +657,7 @@ class System:
             it = Interp(self.progs[0], self.models, self.progs[1:])
             it.enum_discr.update(getattr(self, "extra_discr", {}))
             it.hooks.update(getattr(self, "hooks", {}))
+            it.redirects.update(getattr(self, "redirects", {}))
             it.system, it.thread = self, t
             interps.append(it)
 
